@@ -124,15 +124,22 @@ loop:
 			}
 			spec.Q = 1.0
 			s = skipSpace(s)
-			if strings.HasPrefix(s, ";") {
+			for strings.HasPrefix(s, ";") {
 				s = skipSpace(s[1:])
 				if !strings.HasPrefix(s, "q=") {
-					continue loop
+					// Skip parameters other than the quality (";charset=utf-8").
+					i := strings.IndexAny(s, ";,")
+					if i < 0 {
+						i = len(s)
+					}
+					s = skipSpace(s[i:])
+					continue
 				}
 				spec.Q, s = expectQuality(s[2:])
 				if spec.Q < 0.0 {
 					continue loop
 				}
+				s = skipSpace(s)
 			}
 			specs = append(specs, spec)
 			s = skipSpace(s)
